@@ -519,7 +519,9 @@ def _register_helper_models():
         n = I.path.fresh_int("nondet_bytes.len")
         I.path.assume(n >= 0)
         if max_len is not None:
-            I.path.assume(n <= max_len)
+            from .intops import iexpr as _ie
+
+            I.path.assume(n <= _ie(max_len))
         I.path.ghost.setdefault("__oracle__", []).append(lambda ev, f=f, n=n: _fun_bytes(ev, f, ev(n).as_long()))
         return SBytes([CSeg(f, 0, n)], False)
 
